@@ -27,27 +27,35 @@ class HarnessError(Exception):
 # scratch space
 # ---------------------------------------------------------------------------------------------
 
-_scratch_root = None
 _scratch_n = 0
 
 
+def scratch_top() -> str:
+    """One directory per top-level check process (children nest inside it); removed at exit."""
+    top = os.environ.get("VF_SCRATCH_TOP")
+    if top and os.path.isdir(top):
+        return top
+    base = "/dev/shm" if os.access("/dev/shm", os.W_OK) else tempfile.gettempdir()
+    top = tempfile.mkdtemp(prefix="vf_%d_" % os.getpid(), dir=base)
+    os.environ["VF_SCRATCH_TOP"] = top
+    pid = os.getpid()
+
+    def _cleanup(root=top, pid=pid):
+        if os.getpid() == pid:
+            shutil.rmtree(root, ignore_errors=True)
+
+    atexit.register(_cleanup)
+    return top
+
+
 def scratch_root() -> str:
-    global _scratch_root
-    if _scratch_root is None or not os.path.isdir(_scratch_root):
-        base = "/dev/shm" if os.access("/dev/shm", os.W_OK) else tempfile.gettempdir()
-        _scratch_root = tempfile.mkdtemp(prefix="vf_%d_" % os.getpid(), dir=base)
-        pid = os.getpid()
-
-        def _cleanup(root=_scratch_root, pid=pid):
-            if os.getpid() == pid:
-                shutil.rmtree(root, ignore_errors=True)
-
-        atexit.register(_cleanup)
-    return _scratch_root
+    root = os.path.join(scratch_top(), "p%d" % os.getpid())
+    os.makedirs(root, exist_ok=True)
+    return root
 
 
 def scratch_dir(tag: str = "d") -> str:
-    """A fresh empty directory (removed at process exit; callers may remove it earlier)."""
+    """A fresh empty directory (removed when the check exits; callers may remove it earlier)."""
     global _scratch_n
     _scratch_n += 1
     path = os.path.join(scratch_root(), "%s%d" % (tag, _scratch_n))
@@ -60,10 +68,7 @@ def rm(path: str):
 
 
 def reset_scratch_after_fork():
-    """Call in a forked child so that it gets its own scratch root and cleans only that."""
-    global _scratch_root, _scratch_n
-    _scratch_root = None
-    _scratch_n = 0
+    pass
 
 
 # ---------------------------------------------------------------------------------------------
@@ -78,11 +83,7 @@ def ncpu() -> int:
 
 
 def _pool_init():
-    reset_scratch_after_fork()
-    # make sure worker scratch roots go away with the workers
-    import signal
-
-    signal.signal(signal.SIGTERM, lambda *a: sys.exit(0))
+    pass
 
 
 def _call_wrapped(args):
@@ -237,7 +238,7 @@ class Ctx:
             print("KNOWN-FINDING: property=%s %s [%s]" % (self.prop, k.get("what", ""), key))
         paths = []
         for key, what, art in unknown:
-            d = os.path.join(VERIF, "violations", self.prop)
+            d = os.path.join(os.environ.get("VF_VIOLATIONS_DIR") or os.path.join(VERIF, "violations"), self.prop)
             os.makedirs(d, exist_ok=True)
             digest = hashlib.sha1(key.encode()).hexdigest()[:12]
             path = os.path.join(d, digest + ".json")
@@ -278,7 +279,7 @@ class Ctx:
             "wall_s": round(time.time() - self.t0, 3),
             "violations": nviol,
         }
-        d = os.path.join(VERIF, "evidence")
+        d = os.environ.get("VF_EVIDENCE_DIR") or os.path.join(VERIF, "evidence")
         os.makedirs(d, exist_ok=True)
         tmp = os.path.join(d, ".%s.json.tmp" % self.prop)
         with open(tmp, "w") as f:
